@@ -14,11 +14,13 @@ before it (or free Verus text when outside an @extract block).
     @fn NAME                             following anchors refer to member / nested fn NAME
     @label TEXT                          name used in obligation ids
     @ret NAME                            `-> T` becomes `-> (NAME: T)`
+    @implitems / payload                 (impl items) ghost items inserted at the start of the impl block
     @header / payload                    clauses inserted between signature and body
     @assume-body REASON                  mark the fn external_body: contract assumed, body unverified (listed as assumption)
     @loop ORD / payload                  clauses inserted between loop head and loop body
     @before "PREFIX" [#K] / payload      insert before K-th statement starting with PREFIX
     @after "PREFIX" [#K] / payload       insert after that (';'-terminated) statement
+    @bodystart / payload                 insert right after the opening brace of the fn body
     @atend / payload                     insert just before the closing brace of the fn body
     @beforeloop|@afterloop|@loopstart|@loopend ORD / payload   around / inside the ORD-th loop
     @rule R1 loop ORD iter NAME          for-desugaring over an external iterator
@@ -389,6 +391,10 @@ class Extractor:
                 need_fn(d)
                 add(cur.item.start, cur.item.start, "#[verifier::external_body] ", ("ins", cur_label, "assume-body", d.line))
                 self.assumed.append("%s: body not verified, contract assumed (%s)" % (cur_label, d.arg or "no reason given"))
+            elif n == "implitems":
+                if item.kind not in ("impl", "trait"):
+                    raise GenError("@implitems needs an impl item")
+                add(item.body_open + 1, item.body_open + 1, "\n" + d.text() + "\n", ("ins", base_label, "implitems", d.line))
             elif n == "header":
                 need_fn(d)
                 add(cur.sig_end, cur.sig_end, "\n" + d.text() + "\n", ("ins", cur_label, "header", d.line))
@@ -415,6 +421,9 @@ class Extractor:
                 e = cur.stmt_end(idx)
                 epos = cur.toks[e].end
                 add(epos, epos, "\n" + d.text() + "\n", ("ins", cur_label, "after " + d.arg, d.line))
+            elif n == "bodystart":
+                need_fn(d)
+                add(cur.body_open + 1, cur.body_open + 1, "\n" + d.text() + "\n", ("ins", cur_label, "bodystart", d.line))
             elif n == "atend":
                 need_fn(d)
                 add(cur.body_close, cur.body_close, d.text() + "\n", ("ins", cur_label, "atend", d.line))
